@@ -75,8 +75,15 @@ class TransitWorld:
         from wormhole_transit_relay.usage import create_usage_tracker
         usage = create_usage_tracker(blur_usage=None, log_file=None,
                                      usage_db=None)
+        world = self
+        self.relay_pairs = []    # (protocol, partner protocol) ever glued
+
+        class RecordingTransitConnection(TransitConnection):
+            def connect_partner(self_, other):
+                world.relay_pairs.append((self_, other._client))
+                return TransitConnection.connect_partner(self_, other)
         f = protocol.ServerFactory()
-        f.protocol = TransitConnection
+        f.protocol = RecordingTransitConnection
         f.log_requests = False
         f.noisy = False
         f.transit = Transit(usage, self.sim.reactor.seconds)
